@@ -290,6 +290,8 @@ func idsOnly(ts []indexedToken) []tokenID {
 
 const oovLetters = "bcdfgjkvwxz"
 
+var oovNonASCII = []string{"\u00e9", "\u00df", "\u03a9", "\u4e2d", "\u0130", "\u01c5", "\u023a", "\u212a", "\U0001d400", "\uff15", "e\u0301", "\ufb01"}
+
 // oovWord returns the k-th manufactured out-of-vocabulary word, verified against c's dictionary.
 func oovWord(c *Classifier, k int) string {
 	if k < 0 {
@@ -297,6 +299,11 @@ func oovWord(c *Classifier, k int) string {
 	}
 	var sb strings.Builder
 	sb.WriteString("zq")
+	if k%4 == 3 {
+		// every fourth manufactured word carries a letter outside ASCII (two to four bytes long; some change their
+		// byte length under case mapping), so that context text exercises rune / byte distinctions as well
+		sb.WriteString(oovNonASCII[(k/4)%len(oovNonASCII)])
+	}
 	n := k
 	for i := 0; i < 4 || n > 0; i++ {
 		sb.WriteByte(oovLetters[n%len(oovLetters)])
